@@ -238,6 +238,12 @@ func run(c *eng.Ctx) {
 			nt := runCreateCloseRace(c, idx, v)
 			c.R.End(idx, eng.Hash("c14-race", v), nt)
 		}
+		if idx := len(list) + 6; c.Mine(idx) {
+			settle(procBase)
+			c.R.Begin(idx)
+			nt := runCreateCloseSteered(c, idx)
+			c.R.End(idx, eng.Hash("c14-steered"), nt)
+		}
 	}()
 	for idx, sp := range list {
 		if !c.Mine(idx) {
